@@ -82,7 +82,8 @@ func acquire(prm params) (*chains, error) {
 	if !ok {
 		if len(cache) >= maxCached {
 			for k, old := range cache {
-				if old.refs == 0 {
+				// (chains built by a main-net sized validator set take seconds to build: kept)
+				if old.refs == 0 && old.prm.N < 52 {
 					if old.p != nil {
 						old.p.Close()
 					}
